@@ -93,20 +93,51 @@ def pathOf (cfg : Cfg String) (md : List (Cert String)) (m : Msg String String) 
     s!"ok/{b}/{req}/{env}{det}/{dst}"
   | v => s!"{verdictName v}/{b}/{req}"
 
+/-- the fields of one delivered request (shared by op "parse" and the recv steps of op "history") -/
+def parseRecvFields (c : Json) : Except String (TableEntry × Cfg String × Int × Msg String String) :=
+  match Gen.RequestTable.table.find? (fun e => e.service == codeOf (strD c "service")), bindingOf? (strD c "binding") with
+  | some e, some b =>
+    let cfg := parseCfg ((obj? c "cfg").getD Json.null) (strD c "receiver" "idp" == "idp")
+    let m : Msg String String :=
+      { binding := b, samlRequest := "M", relayState := str? c "relay", sigAlg := str? c "sigalg",
+        signature := parseDet c, enveloped := parseEnv c, version := strD c "version",
+        destination := str? c "dest", issueInstant := int? c "ts" }
+    .ok (e, cfg, intD c "now", m)
+  | none, _ => .error ("service not in the regenerated table: " ++ strD c "service")
+  | _, none => .error ("unknown binding " ++ strD c "binding")
+
+def parseSource (j : Json) : Source String String :=
+  { entities := (arrD j "entities").map (fun e => (strD e "entity", parseMd (arrD e "certs"))) }
+
+def parseSources (js : List Json) : List (Source String String) := js.map parseSource
+
+def parseStep (j : Json) : Except String (Step String String) :=
+  match j.getObjVal? "reload" with
+  | .ok .null => .ok (.reload none)                     -- a specification whose import fails
+  | .ok (.arr a) => .ok (.reload (some (parseSources a.toList)))
+  | _ =>
+    match obj? j "recv" with
+    | some c =>
+      match parseRecvFields c with
+      | .ok (e, cfg, now, m) => .ok (.recv { row := e.row, cfg := cfg, now := now, issuer := strD c "issuer", msg := m })
+      | .error err => .error err
+    | none => .error "step is neither reload nor recv"
+
+def stepOutName : StepOut → String
+  | .reloaded => "reloaded"
+  | .reloadFailed => "reload-failed"
+  | .verdict v => if v = .ok then "processed" else "rejected"
+
+def flagOfName (s : String) : Bool := s == "processed" || s == "reloaded"
+
 def handle (line : Json) : Json :=
   let c := (obj? line "case").getD Json.null
   let impl := (obj? line "impl").getD Json.null
   match strD c "op" with
   | "parse" =>
-    match Gen.RequestTable.table.find? (fun e => e.service == codeOf (strD c "service")), bindingOf? (strD c "binding") with
-    | some e, some b =>
-      let cfg := parseCfg ((obj? c "cfg").getD Json.null) (strD c "receiver" "idp" == "idp")
+    match parseRecvFields c with
+    | .ok (e, cfg, now, m) =>
       let md := parseMd (arrD c "md")
-      let now := intD c "now"
-      let m : Msg String String :=
-        { binding := b, samlRequest := "M", relayState := str? c "relay", sigAlg := str? c "sigalg",
-          signature := parseDet c, enveloped := parseEnv c, version := strD c "version",
-          destination := str? c "dest", issueInstant := int? c "ts" }
       let v := parseRequest algOkS "2.0" truthyS e.row cfg md now m
       let mp := decide (v = .ok)
       let ip := strD impl "r" == "processed"
@@ -117,8 +148,27 @@ def handle (line : Json) : Json :=
       match specWhy "2.0" truthyS cfg md now m ip with
       | some w => Json.mkObj (base ++ [("why", Json.str w)])
       | none => Json.mkObj base
-    | none, _ => Json.mkObj [("proto_error", Json.str ("service not in the regenerated table: " ++ strD c "service"))]
-    | _, none => Json.mkObj [("proto_error", Json.str ("unknown binding " ++ strD c "binding"))]
+    | .error err => Json.mkObj [("proto_error", Json.str err)]
+  | "history" =>
+    match (arrD c "steps").mapM parseStep with
+    | .error err => Json.mkObj [("proto_error", Json.str err)]
+    | .ok steps =>
+      let init := parseSources (arrD c "initial")
+      let outs := runHistory algOkS "2.0" truthyS init steps
+      let implFlags := (strList impl "steps").map flagOfName
+      -- model branch id: the verdicts met after the first reload
+      let afterReload := (outs.dropWhile (fun o => match o with | .verdict _ => true | _ => false))
+      let tags := (afterReload.map (fun o => match o with
+        | .verdict v => verdictName v
+        | .reloaded => "reload"
+        | .reloadFailed => "reload-failed")).eraseDups
+      let base := [("model", Json.mkObj [("steps", jstrs (outs.map stepOutName))]),
+        ("path", Json.str ("history/" ++ String.intercalate "+" tags)),
+        ("spec_model", Json.bool (specHistory "2.0" truthyS init steps (outs.map StepOut.flag))),
+        ("spec_impl", Json.bool (specHistory "2.0" truthyS init steps implFlags))]
+      match specHistoryWhy "2.0" truthyS init steps implFlags 0 with
+      | some (i, w) => Json.mkObj (base ++ [("why", Json.str s!"step {i}: {w} (judged against the metadata in force at that step)")])
+      | none => Json.mkObj base
   | op => Json.mkObj [("proto_error", Json.str ("unknown op " ++ op))]
 
 def main : IO Unit := serve handle
